@@ -504,7 +504,9 @@ def _slice_1d(dim_shape, lengths, index):
     else:
         rstart = start  # running start
 
-        istart = bisect.bisect_left(chunk_boundaries, start)
+        # right-side search: with zero-length chunks several boundaries coincide,
+        # and the chunk holding ``start`` is the one after the last of them
+        istart = bisect.bisect_right(chunk_boundaries, start)
         istop = bisect.bisect_right(chunk_boundaries, stop)
 
         # the bound is not exactly tight; make it tighter?
